@@ -1296,7 +1296,9 @@ def stream_handshake(rep, ctx, findings):
         mc = list(hcases)
         for prs in (locals().get('upairs') or [], locals().get('spairs') or []):
             mc += [c for pr in prs for c in pr[:2]]
-        mc += model_step_cases(rng, 40 if rep.tier == 'quick' else 400)
+        aimed = model_step_cases(rng, 40 if rep.tier == 'quick' else 400)
+        rep.cov['handshake_model_aimed_cases'] = len(aimed)
+        mc += aimed
         rc, il, err = run_std(ctx.exe['hf'], mc, ctx.work, 'hsm-impl')
         rc2, ml, err2 = run_std(ctx.model_hs, mc, ctx.work, 'hsm-model', timeout=900)
         ncmp = 0
@@ -1440,7 +1442,9 @@ def check(rep):
     hcases, gcases = stream_handshake(rep, ctx, findings)
     rep.cov['handshake_wall_s'] = round(time.time() - t1, 1)
     allc = dcases + tcases + hcases + gcases
-    rep.cov['evaluations'] = len(allc) + rep.cov.get('tunnel_matched_cases', 0) + rep.cov.get('namedec_contract_cases', 0)
+    rep.cov['evaluations'] = (len(allc) + rep.cov.get('tunnel_matched_cases', 0) + rep.cov.get('namedec_contract_cases', 0) +
+                              2 * rep.cov.get('handshake_unmatched_reply_pairs', 0) + 2 * rep.cov.get('handshake_stale_tail_pairs', 0) +
+                              rep.cov.get('handshake_model_aimed_cases', 0))
     rep.cov['distinct_nontrivial'] = len(set(allc))
     rep.cov['samples'] = [c[:300] for c in (dcases[:2] + dcases[len(dcases) // 2:len(dcases) // 2 + 2] + tcases[:1] + hcases[:2] + gcases[:2])]
     rep.cov['traces_validated_against_impl'] = (rep.cov.get('decoder_model_agreement', 0) + rep.cov.get('tunnel_model_agreement', 0) +
